@@ -1051,6 +1051,9 @@ pub mod glue {
         Err(err::ip::LaxHeaderSliceError::Content(err::ip::HeaderError::UnsupportedIpVersion { version_number: 0xff }))
     }
 
+    // (A C04 twin of these harnesses - PacketHeaders against SlicedPacket on the same link-extension stacks - was
+    // tried and exceeds the 20 GB cap even with the network decoders stubbed: two result families in one formula.)
+
     /// MACsec (unmodified, no SCI, symbolic short length) -> VLAN (ether type 0x88b5, not decoded further)
     pub fn shape_hdr_macsec_vlan<const LAX: bool>() {
         headers_link_exts::<18, LAX>(refm::ET_MACSEC, |d| {
